@@ -1,5 +1,7 @@
 package main
 
+import "strings"
+
 // Ground instantiation of universally quantified hypotheses at the index
 // terms that occur in the query. The instantiated (quantifier-free where
 // possible) query is tried first: an `unsat` answer for it is sound because
@@ -12,6 +14,7 @@ type instCtx struct {
 	count  int
 	ground map[int][]*Term // array term id -> index terms of ground selects/stores on it
 	gseen  map[int]bool
+	groundApps map[string][]*Term
 }
 
 // indexGround records the index terms of closed select/store applications.
@@ -31,6 +34,12 @@ func (ic *instCtx) indexGround(t *Term) {
 			}
 			break
 		}
+	}
+	if t.kind == kApp && strings.HasPrefix(t.op, "ghost_") && !t.open {
+		if ic.groundApps == nil {
+			ic.groundApps = map[string][]*Term{}
+		}
+		ic.groundApps[t.op] = append(ic.groundApps[t.op], t)
 	}
 	for _, a := range t.args {
 		ic.indexGround(a)
@@ -87,6 +96,19 @@ func (ic *instCtx) patternCands(body *Term, v *Term) []*Term {
 									add(g)
 								}
 							}
+						}
+					}
+				}
+			}
+		}
+		// uninterpreted function applied directly to the bound variable:
+		// arguments of ground applications of the same function
+		if t.kind == kApp && strings.HasPrefix(t.op, "ghost_") {
+			for k, a := range t.args {
+				if a == v {
+					for _, g := range ic.groundApps[t.op] {
+						if k < len(g.args) {
+							add(g.args[k])
 						}
 					}
 				}
